@@ -546,6 +546,13 @@ class Fn:
             return self.ev(fn.value)
         if name == "sorted":
             return Seq(W.fresh("sorted"), a0[2]) if is_(a0, "seq") else None
+        if name == "dict" and isinstance(fn, ast.Name):
+            # dict(pairs): a sequence of (key, value) tuples becomes a map key -> value
+            if args and is_(a0, "seq") and is_(a0[2], "tup") and len(a0[2][1]) == 2:
+                return ("map", a0[2][1][0], a0[2][1][1])
+            if args and is_(a0, "map"):
+                return a0
+            return None
         if name == "set":
             if not args:
                 return ("set", None)
